@@ -207,7 +207,7 @@ def build_driver():
 def run_driver(lines, timeout=1200):
     exe = BUILD / "ocaml" / "driver"
     p = subprocess.run(
-        [str(exe)], input="\n".join(lines) + "\n", stdout=subprocess.PIPE, stderr=subprocess.PIPE,
+        ["bash", "-c", f"ulimit -s unlimited 2>/dev/null || ulimit -s 1000000 2>/dev/null; exec {exe}"], input="\n".join(lines) + "\n", stdout=subprocess.PIPE, stderr=subprocess.PIPE,
         text=True, timeout=timeout,
     )
     if p.returncode != 0:
